@@ -6,7 +6,7 @@ from lib import vlib, e2e_env
 from e2e import engine, gen, plant, evaluate
 from checks import e2e_common
 
-N_BASES = {"quick": 8, "thorough": 110}
+N_BASES = {"quick": 10, "thorough": 110}
 PER_BASE = {"quick": 3, "thorough": 4}
 
 
@@ -76,6 +76,8 @@ def run(ctx):
         distinct.add(c["shape"])
         planted = c["spec"]["planted"]
         variant = planted.get("variant") or planted.get("kind") or planted.get("which") or ""
+        if c["twin"] is None and planted.get("variant"):
+            op = planted["operator"]  # witness of a known finding written as (operator, variant)
         if pv["timeout"]:
             ctx.inconc("pavexc watchdog fired on a planted case", {"case": c["id"]})
             continue
